@@ -1,13 +1,19 @@
 package main
 
 import (
+	"crypto/ecdsa"
+	"crypto/elliptic"
+	"crypto/rand"
 	crand "crypto/rand"
+	"encoding/json"
 	"fmt"
 	"math/big"
 	"strconv"
 	"strings"
 	"sync"
 	"sync/atomic"
+
+	"golang.org/x/crypto/ssh"
 
 	"github.com/smallstep/certificates/api"
 	c "verif/harness/common"
@@ -114,6 +120,8 @@ type Race struct {
 	SSH      bool
 	Renewers int
 	Spell    bool
+	ACME     bool // the certificate comes from the real ACME flow; the revocations are POST /acme/<prov>/revoke-cert signed by the
+	// owning account or by the certificate's key, mixed with POST /1.0/revoke over mTLS
 }
 
 var (
@@ -122,6 +130,9 @@ var (
 )
 
 func runRace(rc *Race) (string, string, string) {
+	if rc.ACME {
+		return runRaceACME(rc)
+	}
 	raceOnce.Do(func() { raceE = newEnv(nil, false); envs = append(envs, raceE) })
 	e := raceE
 	var ok, already, other, allowed int32
@@ -231,7 +242,7 @@ type Defect struct {
 
 func runDefect(d *Defect) (string, string, string) {
 	e := newEnv(nil, false)
-	defer e.ca.Close()
+	defer func() { e.ca.Close() }() // the CA after the restart
 	in := fmt.Sprintf("defect kind=%s spelling=%s", d.Kind, c.X(d.Spelling))
 	var ack, renew, rekey, afterRestart int
 	switch d.Kind {
@@ -246,6 +257,43 @@ func runDefect(d *Defect) (string, string, string) {
 		renew, rekey = e.renewSSH(sc), e.rekeySSH(sc)
 		e.restart()
 		afterRestart = e.renewSSH(sc)
+	case "ssh-identity":
+		// POST /1.0/ssh/renew and /1.0/ssh/rekey with the client's X.509 identity certificate on the TLS connection: the handlers renew
+		// the identity certificate along (api.renewIdentityCertificate -> Authority.Renew). A revoked identity certificate must not be
+		// renewed through them; before the revocation the answer carries a renewed identity certificate (control).
+		xc := e.issueX509()
+		sc := e.issueSSH()
+		idRenewed := func(path string) (int, bool) {
+			body := map[string]any{"ott": e.sshpopToken(sc, path)}
+			h := api.SSHRenew
+			if strings.HasSuffix(path, "rekey") {
+				key := must(ecdsa.GenerateKey(elliptic.P256(), rand.Reader))
+				body["publicKey"] = must(ssh.NewPublicKey(&key.PublicKey)).Marshal()
+				h = api.SSHRekey
+			}
+			code, resp := e.serveBody(h, "POST", path, body, xc.crt, "")
+			var out struct {
+				IdentityCertificate []api.Certificate `json:"identityCrt"`
+			}
+			json.Unmarshal(resp, &out)
+			return code, len(out.IdentityCertificate) > 0
+		}
+		c1, id1 := idRenewed("/1.0/ssh/renew")
+		c2, id2 := idRenewed("/1.0/ssh/rekey")
+		if c1 != 201 || c2 != 201 || !id1 || !id2 {
+			return in, fmt.Sprintf("control-failed renew=%d/%v rekey=%d/%v", c1, id1, c2, id2), "ok"
+		}
+		if ack = e.revokeToken(xc.crt.SerialNumber.String(), "identity"); ack != 200 {
+			return in, fmt.Sprintf("revocation-not-acknowledged status=%d", ack), "ok"
+		}
+		c1, id1 = idRenewed("/1.0/ssh/renew")
+		c2, id2 = idRenewed("/1.0/ssh/rekey")
+		e.restart()
+		c3, id3 := idRenewed("/1.0/ssh/renew")
+		if id1 || id2 || id3 || c1 == 201 || c2 == 201 || c3 == 201 {
+			return in, fmt.Sprintf("VIOLATION revoked-identity-certificate-renewed-through-ssh-handler renew=%d/%v rekey=%d/%v after-restart=%d/%v", c1, id1, c2, id2, c3, id3), "ok"
+		}
+		return in, "ok", "ok"
 	case "x509-serial":
 		xc := e.issueX509()
 		ack = e.revokeToken(d.Spelling+xc.crt.SerialNumber.Text(16), "ctl")
